@@ -259,6 +259,34 @@ def roles_by_shape(tier: str):
     return by
 
 
+def apalache_induction(next_op="Next"):
+    """Init => IndInv and IndInv /\\ Next => IndInv' for specs/ParamsInd.tla. Returns (ok, seconds)."""
+    import os
+    import shutil
+    import subprocess
+    import time
+    from .tlc import SPECS, scratch_dir
+    work = scratch_dir("apalache")
+    t0 = time.time()
+    try:
+        shutil.copy(os.path.join(SPECS, "ParamsInd.tla"), work)
+        ok = True
+        for args in (["--init=Init", "--inv=IndInv", "--length=0"], ["--init=IndInit", f"--next={next_op}", "--inv=IndInv", "--length=1"]):
+            try:
+                p = subprocess.run(["apalache-mc", "check", *args, f"--out-dir={work}/out", "ParamsInd.tla"], cwd=work, capture_output=True,
+                                   text=True, timeout=600)
+            except (subprocess.TimeoutExpired, FileNotFoundError) as e:
+                raise MachineryError(f"apalache-mc did not finish: {e}") from e
+            if "EXITCODE: OK" not in p.stdout:
+                if "EXITCODE: ERROR (12)" in p.stdout or "violat" in p.stdout.lower():
+                    ok = False
+                else:
+                    raise MachineryError("apalache-mc failed: " + p.stdout[-400:])
+        return ok, time.time() - t0
+    finally:
+        shutil.rmtree(work, ignore_errors=True)
+
+
 def selftest() -> int:
     ensure_repo_on_path()
     res = run_tlc("ElementParams", cfg_text(["x"], "FF", False, FULL_VAL, FULL_LO, FULL_HI, 3, 1, False,
@@ -270,8 +298,9 @@ def selftest() -> int:
     bad[0]["p"][0]["hi"]["x"] = 6
     ctx = [("C", (("x", "C"),))]
     ok2 = not judge_history(good, ctx) and bool(judge_history(bad, ctx))
-    print("selftest C14:", "ok" if ok1 and ok2 else f"FAILED model-counterexample={ok1} binding={ok2}")
-    return 0 if ok1 and ok2 else 2
+    ok3 = apalache_induction()[0] and not apalache_induction("NextSloppy")[0]
+    print("selftest C14:", "ok" if ok1 and ok2 and ok3 else f"FAILED model-counterexample={ok1} binding={ok2} induction={ok3}")
+    return 0 if ok1 and ok2 and ok3 else 2
 
 
 def replay(case) -> int:
@@ -311,6 +340,12 @@ def run(tier: str, seed: int) -> int:
         if res.violated:
             v.model_violation("ElementParams", res, "the parameter-store model violates its own invariant")
         require_coverage(res, ["Setter", "SetterBad", "SetLabel", "ResetParameter", "ResetParameters", "Copy", "PrintParse", "Swap"])
+    # 1b. unbounded: lower < upper is an inductive invariant of the setters over all integers (Apalache)
+    ok, secs = apalache_induction()
+    v.extra["apalache_inductive_invariant"] = {"module": "specs/ParamsInd.tla", "invariant": "lower < upper", "obligations": 2, "discharged": 2 if ok else 0,
+                                               "wall_s": round(secs, 1)}
+    if not ok:
+        v.report("model:ParamsInd:IndInv", {"spec": "ParamsInd"}, "lower < upper is not inductive for the setters of specs/ParamsInd.tla")
     # 2. histories replayed on every registered (class, parameter)
     n_roles = 0
     for (shape, fx), lst in sorted(by.items()):
